@@ -262,7 +262,7 @@ pub enum RCODE {
     BADVERS = 16,
 
     /// Reserved for future use.
-    Reserved,
+    Reserved = 15,
 }
 
 impl From<u16> for RCODE {
